@@ -55,7 +55,13 @@ impl SWCurveConfig for Config {
 
     #[inline]
     fn mul_projective(p: &G1Projective, scalar: &[u64]) -> G1Projective {
-        let s = Self::ScalarField::from_sign_and_limbs(true, scalar);
+        // GLV works on an element of the scalar field: ignore leading zero
+        // limbs, and use plain double-and-add for integers that do not fit.
+        let len = scalar.iter().rposition(|limb| *limb != 0).map_or(0, |i| i + 1);
+        if len > <<Self::ScalarField as PrimeField>::BigInt as ark_ff::BigInteger>::NUM_LIMBS {
+            return ark_ec::scalar_mul::sw_double_and_add_projective(p, scalar);
+        }
+        let s = Self::ScalarField::from_sign_and_limbs(true, &scalar[..len]);
         GLVConfig::glv_mul_projective(*p, s)
     }
 
